@@ -399,9 +399,37 @@ def alpha_renamed(text: str) -> str:
     return _sexp_str(sub(form))
 
 
-def annotations_explicit(text: str) -> str:
-    """the same core with every `!` carrying all the properties it inherits"""
+def core_level_props(form) -> dict:
+    """{':precision': v, ':round': v} given at the top of a parsed (FPCore ...) form"""
+    i = 1
+    if isinstance(form[i], str):
+        i += 1
+    i += 1
+    out = {}
+    while i < len(form) - 1 and isinstance(form[i], str) and form[i].startswith(':'):
+        if form[i] in (':precision', ':round'):
+            out[form[i]] = form[i + 1]
+        i += 2
+    return out
+
+
+def core_props_completed(text: str):
+    """the same core with the standard's defaults written out at the top for whichever of
+    :precision / :round it gives only one of; None if it gives both or neither"""
     form = REF.parse_sexp(text)[0]
+    have = core_level_props(form)
+    if len(have) != 1:
+        return None
+    add = [':round', 'nearestEven'] if ':precision' in have else [':precision', 'binary64']
+    i = 2 if isinstance(form[1], str) else 1
+    return _sexp_str(form[:i + 1] + add + form[i + 1:])
+
+
+def annotations_explicit(text: str, from_core: bool = False) -> str:
+    """the same core with every `!` carrying all the properties it inherits (from the
+    enclosing annotations; with `from_core`, from the core's own properties too)"""
+    form = REF.parse_sexp(text)[0]
+    top = core_level_props(form) if from_core else {}
 
     def sub(e, inh):
         if not isinstance(e, list) or not e:
@@ -417,7 +445,37 @@ def annotations_explicit(text: str) -> str:
                 out += [k, v]
             return out + [sub(e[-1], merged)]
         return [sub(x, inh) for x in e]
-    return _sexp_str(sub(form, {}))
+    return _sexp_str(sub(form, top))
+
+
+def annotations_defaulted(text: str):
+    """the same core with every `!` that sets an IEEE :precision but no :round given
+    `:round nearestEven`, and every `!` that sets :round but no :precision given
+    `:precision binary64` -- i.e. each annotation made a complete context by the standard's
+    defaults instead of by inheritance (an FPy context fixes every property, so an annotation
+    emitted for one should not leave any to the enclosing scope).  `:precision integer`
+    annotations (the backend's own index arithmetic) are left alone.  None if nothing changes."""
+    form = REF.parse_sexp(text)[0]
+    hit = [False]
+
+    def sub(e):
+        if not isinstance(e, list) or not e:
+            return e
+        if e[0] == '!':
+            keys = {e[i]: e[i + 1] for i in range(1, len(e) - 1, 2)}
+            add = []
+            prec = keys.get(':precision')
+            ieee = isinstance(prec, list) or (isinstance(prec, str) and prec.startswith('binary'))
+            if ieee and ':round' not in keys:
+                add = [':round', 'nearestEven']
+            elif ':round' in keys and ':precision' not in keys:
+                add = [':precision', 'binary64']
+            if add:
+                hit[0] = True
+            return e[:-1] + add + [sub(e[-1])]
+        return [sub(x) for x in e]
+    out = sub(form)
+    return _sexp_str(out) if hit[0] else None
 
 
 def range_quotient_up(text: str):
@@ -467,6 +525,16 @@ def refs_reversed(text: str):
         return e
     out = sub(form)
     return _sexp_str(out) if hit[0] else None
+
+
+def _r_class(tags) -> str:
+    """coarse class of a layer-R core: which properties the core itself and its annotation(s) set"""
+    def cls(name):
+        if name in ('none', '', None):
+            return 'none'
+        p, rr = 'P' in name, 'R' in name
+        return 'precision+round' if p and rr else 'precision-only' if p else 'round-only'
+    return f'core sets {cls(tags.get("func"))}'
 
 
 class Loaded:
@@ -539,6 +607,7 @@ class Check(BaseCheck):
                 pairs=[('H_RTZ', 'D_RNE'), ('D_RNE', 'H_RTZ'), ('S_RTN', 'H_RTP'), ('H_RNE', 'INT')],
                 xpairs=[(o, i) for o in ('H_RTZ', 'S_RTP', 'D_RNE', 'INT') for i in ('H_RTN', 'D_RTZ', 'I_RNE')],
                 scalars=SCALARS_QUICK, lists=LISTS,
+                rcores=dict(funcs=['none', 'P32', 'Rz', 'P32Rz'], anns=list(G.R_ANN), nested=G.R_NESTED),
             )
             # seed-rotated extra slice of the next bound (size-4 skeletons), on top of the complete core
             plan['slice'] = dict(sizes=(4,), depth=3, kinds=allk, outer=['H_RTZ'], inner=['D_RNE'],
@@ -557,6 +626,7 @@ class Check(BaseCheck):
                 xpairs=[(o, i) for o in names for i in names],
                 scalars=SCALARS_QUICK + SCALARS_MORE,
                 lists={k: LISTS[k] + LISTS_MORE.get(k, []) for k in LISTS},
+                rcores=dict(funcs=list(G.R_FUNC_PROPS), anns=list(G.R_ANN), nested=G.R_NESTED),
             )
         return plan
 
@@ -592,10 +662,42 @@ class Check(BaseCheck):
             out.append((n, argss))
         return out
 
+    def core_inputs(self):
+        """argument vectors of layer R: the scalar pool and the same vectors rounded to binary32 and
+        to binary16 (a core with its own :precision takes arguments of that precision; vectors that
+        are not are counted precondition_false)"""
+        import struct
+        out = []
+        seen = set()
+        for (u, v) in self._tier()['scalars']:
+            cands = [(u, v)]
+            try:
+                cands.append(tuple(struct.unpack('f', struct.pack('f', t))[0] for t in (u, v)))
+            except OverflowError:
+                pass
+            try:
+                cands.append(tuple(struct.unpack('e', struct.pack('e', t))[0] for t in (u, v)))
+            except OverflowError:
+                pass
+            for c in cands:
+                k = tuple(enc_float(t) for t in c)
+                if k not in seen:
+                    seen.add(k)
+                    out.append(list(c))
+        return out
+
+    def cores(self):
+        p = self._tier()['rcores']
+        return G.read_cores(p['funcs'], p['anns'], p['nested'])
+
     def bounds(self):
         plan = self._tier()
         b = {k: {kk: (list(vv) if isinstance(vv, (tuple, list)) else vv) for kk, vv in plan[k].items()}
              for k in ('full', 'sw', 'small', 'slice') if k in plan}
+        b['read_layer'] = {'function_level': plan['rcores']['funcs'], 'annotations': plan['rcores']['anns'],
+                           'nested': [f'{a}>{b_}' for a, b_ in plan['rcores']['nested']],
+                           'shapes': [n for n, _ in G.R_SHAPES_1 + G.R_SHAPES_2],
+                           'inputs': len(self.core_inputs())}
         b['template_pairs'] = len(plan['pairs'])
         b['templates'] = list(G.TEMPLATES)
         b['scalar_inputs'] = len(plan['scalars'])
@@ -660,9 +762,11 @@ class Check(BaseCheck):
         except Exception as e:          # noqa: BLE001
             return ('refused', f'{type(e).__name__}: {str(e)[:120]}')
 
-    def refeval(self, text, args):
+    def refeval(self, text, args, ignore_props=False):
         try:
-            return ('ok', REF.evaluate(text, [to_ref(a) for a in args]))
+            return ('ok', REF.evaluate(text, [to_ref(a) for a in args], ignore_props=ignore_props))
+        except REF.ArgumentNotRepresentable as e:
+            return ('argument-not-representable', str(e)[:120])
         except REF.Unsupported as e:
             return ('unsupported', str(e)[:120])
         except REF.Undefined as e:
@@ -868,7 +972,9 @@ class Check(BaseCheck):
                 FPy program gives -- or, where the program has a statement after a `with` block, what
                 the program with its continuations moved into the blocks gives (two causes at once)"""
                 repairs = (('ref-index-order', 'nested-tuple-binding', refs_reversed),
-                           ('range-quotient-rounded-before-ceil', 'range-with-step', range_quotient_up))
+                           ('range-quotient-rounded-before-ceil', 'range-with-step', range_quotient_up),
+                           ('annotation-omits-property-fixed-by-context', 'partial-annotation',
+                            annotations_defaulted))
                 cands = []
                 both = text
                 names, shapes = [], []
@@ -993,6 +1099,13 @@ class Check(BaseCheck):
                 """the smallest rewrite of the core after which the re-read function is right"""
                 if rg[0] == 'diverges' and while_condition_needs_statements(text):
                     return 'while-condition-hoisted'
+                # control: re-reading the *unmodified* text must fail too, otherwise a rewrite that
+                # "works" shows nothing about the rewrite
+                g0 = repaired_reader('control')
+                if g0 is not None:
+                    r0 = self.call_fn(g0, args)
+                    if r0[0] == 'ok' and any(same(r0[1], val) for val in good):
+                        return 'unexplained'
                 for name, cause in (('renamed', 'fresh-name-clash'),
                                     ('explicit', 'nested-annotation-not-inherited'),
                                     ('explicit+renamed', 'fresh-name-clash+nested-annotation-not-inherited')):
@@ -1058,6 +1171,128 @@ class Check(BaseCheck):
                             f'{rm[1] if rm[0] != "ok" else show(rm[1])})\n'
                             f're-read function : {show(vg)}\nFPy on original  : {show(vf)}')
 
+    # ---- layer R: one FPCore text ---------------------------------------------
+    def examine_core(self, r: ShardResult, text: str, tags: dict, argss, collect=None):
+        """`from_fpcore(parse(text))(*args)` vs the meaning of the text (titanfp, arbitrated by the
+        standard evaluator)."""
+        base_case = {'core_text': text, 'tags': tags}
+
+        def violate(signature, args, detail):
+            signature = dict(signature)
+            case = dict(base_case)
+            case['args'] = enc_args(args) if args is not None else None
+            case['signature'] = {k: str(v) for k, v in signature.items()}
+            r.violate(signature, case, f'core ({tags.get("key", "")}): {text}' + detail)
+            if collect is not None:
+                collect.append(({k: str(v) for k, v in signature.items()}, detail))
+
+        def cap(where):
+            r.count('backstop_timeouts')
+            note = f'CAP wall-clock backstop ({TIME_LIMIT:.0f} s) cut a step; not judged: {where}'
+            if note not in r.notes and len(r.notes) < 20:
+                r.notes.append(note)
+
+        shape = f'{tags.get("shape")}[{tags.get("ann")}] under function-level {tags.get("func")}'
+        core = fpcparser.compile1(text)
+        readers = {}
+
+        def reader(name):
+            """the re-read function of the text, or of a rewritten text (diagnosis)"""
+            if name not in readers:
+                t2 = text
+                if name in ('core-completed', 'both'):
+                    t2 = core_props_completed(t2) or t2
+                if name in ('explicit', 'both'):
+                    t2 = annotations_explicit(t2, from_core=True)
+                if name != 'plain' and t2 == text:
+                    readers[name] = None
+                else:
+                    try:
+                        with time_limit(TIME_LIMIT):
+                            readers[name] = ('ok', fp.Function.from_fpcore(core if name == 'plain'
+                                                                           else fpcparser.compile1(t2)))
+                    except _Timeout:
+                        readers[name] = ('timeout', '')
+                    except Exception as e:      # noqa: BLE001
+                        readers[name] = ('raises', f'{type(e).__name__}: {str(e)[:160]}')
+            return readers[name]
+
+        r.count('transitions')
+        g = reader('plain')
+        if g[0] == 'timeout':
+            cap('Function.from_fpcore')
+            return
+        if g[0] == 'raises':
+            violate({'direction': 'read', 'layer': 'R', 'kind': 'from_fpcore raises ' + g[1].split(':')[0],
+                     'shape': shape, 'cause': 'unexplained'}, None, f'\nFunction.from_fpcore raised {g[1]}')
+            return
+        g = g[1]
+        r.outcomes['R:read:ok'] += 1
+
+        for args in argss:
+            r.count('evaluations')
+            r.count('states')
+            rm = self.refeval(text, args)
+            if rm[0] == 'argument-not-representable':
+                r.count('precondition_false')
+                continue
+            rt = self.titan(core, args)
+            r.count('transitions')
+            if rt[0] == 'timeout':
+                cap('titanfp')
+            if rt[0] != 'ok':
+                r.count('inconclusive')
+                r.outcomes['R:titanfp:' + rt[0] + ':' + rt[1].split(':')[0][:40]] += 1
+                continue
+            meaning = [('titanfp', rt[1])]
+            if rm[0] == 'ok':
+                if same(rm[1], rt[1]):
+                    r.outcomes['R:oracles:agree'] += 1
+                else:
+                    meaning.append(('standard', rm[1]))
+                    r.outcomes['R:oracles:differ'] += 1
+            else:
+                r.outcomes['R:oracles:titanfp-only:' + rm[0]] += 1
+            plain = self.refeval(text, args, ignore_props=True)
+            if plain[0] == 'ok' and not same(plain[1], rt[1]):
+                r.count('nontrivial')           # the properties matter on this input
+            rg = self.call_fn(g, args)
+            r.count('transitions')
+            r.count('validated')
+            if rg[0] == 'timeout':
+                cap('re-read function')
+                continue
+            if rg[0] == 'ok' and any(same(val, rg[1]) for _, val in meaning):
+                r.outcomes['R:read:agree'] += 1
+                if not same(rg[1], rt[1]):
+                    r.count('titanfp_quirk')
+                continue
+            if rm[0] == 'undefined':
+                r.outcomes['R:read:differs-on-undefined-core'] += 1
+                continue
+
+            # name the cause by the smallest rewrite of the text after which re-reading is right
+            cause = 'unexplained'
+            for name, label in (('core-completed', 'function-level-property-set-incomplete'),
+                                ('explicit', 'partial-annotation-loses-inherited-property'),
+                                ('both', 'function-level-property-set-incomplete+'
+                                         'partial-annotation-loses-inherited-property')):
+                g2 = reader(name)
+                if g2 is None or g2[0] != 'ok':
+                    continue
+                r2 = self.call_fn(g2[1], args)
+                if r2[0] == 'ok' and any(same(r2[1], val) for _, val in meaning):
+                    cause = label
+                    break
+            kind = 'value' if rg[0] == 'ok' else 're-read function ' + (
+                'does not terminate' if rg[0] == 'diverges' else (rg[1].split(':')[0] or rg[0]))
+            sig = {'direction': 'read', 'layer': 'R', 'kind': kind, 'cause': cause,
+                   'shape': shape if cause == 'unexplained' else _r_class(tags)}
+            violate(sig, args,
+                    f'\nargs {show_args(args)}\nre-read function:\n{g.format()}\n'
+                    + ''.join(f'core by {nm:9s}: {show(val)}\n' for nm, val in meaning)
+                    + f're-read function : {show(rg[1]) if rg[0] == "ok" else rg[0] + " " + rg[1]}')
+
     # ---- shard loop --------------------------------------------------------
     def run_shard(self, shard) -> ShardResult:
         k, m = shard
@@ -1082,6 +1317,17 @@ class Check(BaseCheck):
             linecache.clearcache()
             if i % 997 == 5:
                 r.sample({'program': prog.key, 'src': src})
+        argss = self.core_inputs()
+        for i, c in enumerate(self.cores()):
+            if i % m != k:
+                continue
+            r.count('cores_read')
+            self.examine_core(r, c.text, dict(c.tags), argss)
+            if i % 50 == 0:
+                _reset_caches()
+            if i % 397 == 7:
+                r.sample({'core': c.key, 'text': c.text})
+        _reset_caches()
         m = MAX_LINES_SEEN[0]
         r.outcomes['reread-call max lines ' + ('<100' if m < 100 else '<1000' if m < 1000 else f'<{LINE_BUDGET}')] += 0
         return r
@@ -1091,6 +1337,16 @@ class Check(BaseCheck):
         r = ShardResult()
         got: list = []
         args = case.get('args')
+        if 'core_text' in case:
+            argss = [dec_args(args)] if args is not None else self.core_inputs()[:1]
+            self.examine_core(r, case['core_text'], case.get('tags', {}), argss, collect=got)
+            want = case.get('signature', {})
+            hits = [(s, d) for s, d in got if all(s.get(k) == v for k, v in want.items())]
+            text = f'core: {case["core_text"]}\nargs: {argss[0]}\n'
+            if hits:
+                return True, text + '\n'.join(f'{s}\n{d}' for s, d in hits)
+            return False, text + ('other findings: ' + '; '.join(str(s) for s, _ in got) if got
+                                  else 'the re-read function agrees with the core on this case')
         if args is None:
             # program-level failure (compiler crash / from_fpcore raising): no input needed, but
             # `examine` wants one to run through
